@@ -8,8 +8,8 @@
 //   {"kind":"blockops","file":"exchange/client_flow.go","func":"ClientExchange.Run",
 //    "name":"client_steps","helpers":"exchange/proto.go"}
 //
-// Emits  Definition client_steps : list (Z * bool) := [(dir, bounded); ...]  with dir 0 = send,
-// 1 = receive.  Helper methods (file "helpers") are classified by a fixpoint: a method is
+// Emits  Definition client_steps : list (Z * bool * bool) := [(dir, bounded, restart); ...]  with
+// dir 0 = send, 1 = receive; restart = a fresh timeout is armed per loop iteration on peer input.  Helper methods (file "helpers") are classified by a fixpoint: a method is
 // blocking if it calls conn.Send/conn.Recv or a blocking method; it is bounded if every such
 // call happens after `ctx, cancel := context.WithTimeout(ctx, w.timeout)` in the same body
 // (and passes that ctx), or is a call of a bounded method.
@@ -29,6 +29,9 @@ type blkOp struct {
 	pos     token.Pos
 	dir     int // 0 send, 1 recv, 2 both/unknown
 	bounded bool
+	// restart: the operation sits in a loop that re-arms a fresh timeout on every iteration driven by
+	// peer input (e.g. skipping transport errors), so the STEP is bounded by (n+1)*timeout, not timeout
+	restart bool
 	via     string
 }
 
@@ -61,8 +64,12 @@ func timeoutCtxPositions(body *ast.BlockStmt) []token.Pos {
 type helperInfo struct {
 	blocking bool
 	bounded  bool
+	restart  bool
 	dir      int
 }
+
+// calls that may receive ctx without being transport operations
+var ctxAllow = []string{"context.", ".log.", "log."}
 
 func connDir(name string) (int, bool) {
 	switch {
@@ -74,9 +81,36 @@ func connDir(name string) (int, bool) {
 	return 0, false
 }
 
-// scanBody lists the blocking operations of body in source order.
-func scanBody(body *ast.BlockStmt, helpers map[string]helperInfo) []blkOp {
+// scanBody lists the blocking operations of body in source order. It refuses (die) when the body
+// hands ctx to a call it cannot classify, or aliases the connection, because such a call could block
+// without becoming a table row.
+func scanBody(owner string, body *ast.BlockStmt, helpers map[string]helperInfo, strict bool) []blkOp {
 	tps := timeoutCtxPositions(body)
+	type span struct{ from, to token.Pos }
+	var loops []span
+	ast.Inspect(body, func(n ast.Node) bool {
+		switch x := n.(type) {
+		case *ast.ForStmt:
+			loops = append(loops, span{x.Body.Pos(), x.Body.End()})
+		case *ast.RangeStmt:
+			loops = append(loops, span{x.Body.Pos(), x.Body.End()})
+		case *ast.AssignStmt:
+			for _, r := range x.Rhs {
+				if strict && strings.HasSuffix(show(r), ".conn") {
+					die("%s: the connection is aliased (%s): blocking calls can no longer be listed by name", owner, show(x))
+				}
+			}
+		}
+		return true
+	})
+	inLoop := func(p token.Pos) bool {
+		for _, l := range loops {
+			if l.from <= p && p < l.to {
+				return true
+			}
+		}
+		return false
+	}
 	var ops []blkOp
 	ast.Inspect(body, func(n ast.Node) bool {
 		call, ok := n.(*ast.CallExpr)
@@ -93,13 +127,35 @@ func scanBody(body *ast.BlockStmt, helpers map[string]helperInfo) []blkOp {
 					}
 				}
 			}
-			ops = append(ops, blkOp{call.Pos(), dir, b, name})
+			// a direct call under a timeout established once outside the loop keeps ONE deadline
+			ops = append(ops, blkOp{call.Pos(), dir, b, false, name})
 			return true
 		}
 		if sel, ok := call.Fun.(*ast.SelectorExpr); ok {
 			if h, ok := helpers[sel.Sel.Name]; ok && h.blocking {
 				if _, isIdent := sel.X.(*ast.Ident); isIdent {
-					ops = append(ops, blkOp{call.Pos(), h.dir, h.bounded, name})
+					// a bounded helper called from inside a loop gets a fresh timeout per iteration
+					ops = append(ops, blkOp{call.Pos(), h.dir, h.bounded, h.restart || (h.bounded && inLoop(call.Pos())), name})
+					return true
+				}
+			}
+		}
+		if strict {
+			passesCtx := false
+			for _, a := range call.Args {
+				if show(a) == "ctx" {
+					passesCtx = true
+				}
+			}
+			if passesCtx {
+				allowed := false
+				for _, pre := range ctxAllow {
+					if strings.HasPrefix(name, pre) || strings.Contains(name, pre) {
+						allowed = true
+					}
+				}
+				if !allowed {
+					die("%s: call %s receives ctx but is neither a known transport operation nor a timeout helper (shape not understood)", owner, name)
 				}
 			}
 		}
@@ -128,7 +184,7 @@ func extBlockOps(sb *strings.Builder, repo string, it Item) {
 	// fixpoint over helper methods
 	for round := 0; round < len(decls)+2; round++ {
 		for _, fd := range decls {
-			ops := scanBody(fd.Body, helpers)
+			ops := scanBody(fd.Name.Name, fd.Body, helpers, round > len(decls))
 			if len(ops) == 0 {
 				continue
 			}
@@ -136,6 +192,9 @@ func extBlockOps(sb *strings.Builder, repo string, it Item) {
 			for _, o := range ops {
 				if !o.bounded {
 					h.bounded = false
+				}
+				if o.restart {
+					h.restart = true
 				}
 				if o.dir != h.dir {
 					h.dir = 2
@@ -152,13 +211,13 @@ func extBlockOps(sb *strings.Builder, repo string, it Item) {
 	if fd == nil || fd.Body == nil {
 		die("function %s not found in %s", it.Func, it.File)
 	}
-	ops := scanBody(fd.Body, helpers)
+	ops := scanBody(it.Func, fd.Body, helpers, true)
 	if len(ops) == 0 {
 		die("%s: no blocking operation found (shape not understood)", it.Func)
 	}
 	var hs []string
 	for n, h := range helpers {
-		hs = append(hs, fmt.Sprintf("%s(dir=%d,bounded=%v)", n, h.dir, h.bounded))
+		hs = append(hs, fmt.Sprintf("%s(dir=%d,bounded=%v,restart=%v)", n, h.dir, h.bounded, h.restart))
 	}
 	sort.Strings(hs)
 	fmt.Fprintf(sb, "(* blocking helpers in %s: %s *)\n", helpersFile, strings.Join(hs, " "))
@@ -167,9 +226,9 @@ func extBlockOps(sb *strings.Builder, repo string, it Item) {
 		if o.dir == 2 {
 			die("%s: operation %s both sends and receives (shape not understood)", it.Func, o.via)
 		}
-		fmt.Fprintf(sb, "(* %s op %d: %s at line %d: dir=%d bounded=%v *)\n", it.Name, i+1, o.via, fset.Position(o.pos).Line, o.dir, o.bounded)
-		items = append(items, fmt.Sprintf("(%d, %v)", o.dir, o.bounded))
+		fmt.Fprintf(sb, "(* %s op %d: %s at line %d: dir=%d bounded=%v restart=%v *)\n", it.Name, i+1, o.via, fset.Position(o.pos).Line, o.dir, o.bounded, o.restart)
+		items = append(items, fmt.Sprintf("(%d, %v, %v)", o.dir, o.bounded, o.restart))
 	}
-	fmt.Fprintf(sb, "(* from %s : %s *)\nDefinition %s : list (Z * bool) := (%s)%%list.\n", it.File, it.Func, it.Name,
+	fmt.Fprintf(sb, "(* from %s : %s *)\nDefinition %s : list (Z * bool * bool) := (%s)%%list.\n", it.File, it.Func, it.Name,
 		"cons "+strings.Join(items, " (cons ")+" nil"+strings.Repeat(")", len(items)-1))
 }
